@@ -137,6 +137,35 @@ Theorem C09_logins_only_by_callback : forall (lower : str -> str) cfg w e,
 Proof. exact logins_only_by_callback. Qed.
 Print Assumptions C09_logins_only_by_callback.
 
+(* One browser with a cookie jar (RFC 6265: an expired Set-Cookie removes the cookie, any other
+   stores it, also with an empty value; every request carries what the jar holds). Over ALL
+   histories of /start, callbacks (honest or forged: any state, any code), sign-ins and time:
+   a callback creates a session ONLY IF the nonce in its state equals the CSRF cookie the jar
+   holds, and that value was the server's choice at a /start of THIS browser's history that no
+   later callback has consumed; the callback removes the cookie, so a nonce serves once. *)
+Theorem C09_browser_csrf_binding : forall (lower : str -> str) cfg evs t0 rq rd s,
+  let w := brun lower cfg (bworld0 t0) evs in
+  cr_saved (oauth_callback lower cfg (bw_now w) (with_csrf rq (bw_csrf w)) rd) = Some s ->
+  exists nonce redirect srq,
+    cb_state rq = Some (nonce ++ colon :: redirect) /\ ~ In colon nonce /\
+    bw_csrf w = Some nonce /\ In (BvStart nonce srq) evs /\
+    cb_redirect_ok rq redirect = true /\
+    bw_csrf (bstep lower cfg w (BvCallback rq rd)) = None /\
+    bw_sess (bstep lower cfg w (BvCallback rq rd)) = Some s.
+Proof. exact browser_csrf_binding. Qed.
+Print Assumptions C09_browser_csrf_binding.
+
+(* the jar never holds a CSRF value that did not come from a /start response *)
+Theorem C09_browser_jar_provenance : forall (lower : str -> str) cfg evs t0 n,
+  bw_csrf (brun lower cfg (bworld0 t0) evs) = Some n -> exists srq, In (BvStart n srq) evs.
+Proof.
+  intros lower cfg evs t0 n H.
+  assert (Hin : In n (bw_starts (brun lower cfg (bworld0 t0) evs))).
+  { apply (binv_run lower cfg evs (bworld0 t0)); [intros m E; discriminate | exact H]. }
+  destruct (starts_from_events lower _ _ _ _ Hin) as [[]|Hs]. exact Hs.
+Qed.
+Print Assumptions C09_browser_jar_provenance.
+
 (* The monitors applied to the implementation's observations accept the model's own behaviour
    on every input and every history (so a monitor alarm is never an artefact of the monitor). *)
 Theorem C09_monitor_accepts_model : forall (lower : str -> str) cfg,
@@ -144,12 +173,15 @@ Theorem C09_monitor_accepts_model : forall (lower : str -> str) cfg,
   (forall p now rq c rr vr,
      si_holds lower cfg p now rq c rr vr (si_obs_of (sign_in_route lower cfg p now rq c rr vr)) = true) /\
   (forall now rq rd, cb_holds lower cfg now rq rd (cb_obs_of (oauth_callback lower cfg now rq rd)) = true) /\
-  (forall evs w, hist_judge lower cfg w (w_issued w) (model_steps lower cfg w evs) = (true, true)).
+  (forall evs w, hist_judge lower cfg w (w_issued w) (model_steps lower cfg w evs) = (true, true)) /\
+  (forall evs w, Forall good_event evs ->
+     bhist_judge lower cfg w (mjar_of w) (bw_sess w) (bmodel_steps lower cfg w evs) = (true, true)).
 Proof.
-  intros lower cfg G. split; [|split].
+  intros lower cfg G. split; [|split; [|split]].
   - intros. exact (si_holds_model lower cfg p now rq c rr vr G).
   - intros. exact (cb_holds_model lower cfg now rq rd G).
   - intros. exact (hist_holds_model lower cfg evs w G).
+  - intros evs w Hg. exact (bhist_holds_model lower cfg evs w G Hg).
 Qed.
 Print Assumptions C09_monitor_accepts_model.
 
@@ -164,3 +196,17 @@ Theorem C09_nonvacuous :
    r_status r = 200%N /\ r_body r = BodySignInPage /\ r_code r = None /\ r_ops r = [OpClear; OpClear]).
 Proof. split; [exact ex_trace_runs | exact ex_expired_shows_sign_in_page]. Qed.
 Print Assumptions C09_nonvacuous.
+
+(* a browser: /start then the honest callback creates a session and empties the jar; the forged
+   empty-nonce callback is then refused — and WOULD succeed if the jar still held a live
+   empty-valued CSRF cookie (so the jar semantics are what the guarantee rests on) *)
+Theorem C09_browser_nonvacuous :
+  let rd := RdTokens ex_email [116]%N [114]%N 900 in
+  let w1 := brun lower_ascii ex_cfg (bworld0 0) [BvStart ex_nonce ex_start] in
+  let w2 := bstep lower_ascii ex_cfg w1 (BvCallback (ex_bcb (ex_nonce ++ colon :: ex_redirect)) rd) in
+  bw_csrf w1 = Some ex_nonce /\ bw_csrf w2 = None /\ (exists s, bw_sess w2 = Some s) /\
+  cr_saved (oauth_callback lower_ascii ex_cfg 0 (with_csrf (ex_bcb (colon :: ex_redirect)) (bw_csrf w2)) rd) = None /\
+  (exists s, cr_saved (oauth_callback lower_ascii ex_cfg 0 (with_csrf (ex_bcb (colon :: ex_redirect))
+                         (jar_apply_all (bw_csrf w1) [mkSC [] false])) rd) = Some s).
+Proof. exact ex_browser_runs. Qed.
+Print Assumptions C09_browser_nonvacuous.
